@@ -404,6 +404,42 @@ func (t *T) NegBreakWhileHolding(n int) {
 	}
 }
 
+func (t *T) firstRec() *Inner { return t.recs["first"] }
+
+// a pointer into the receiver's state is fetched under the lock and followed after the unlock
+func (t *T) NegDerivedPointerUsedAfterUnlock() int {
+	t.mu.RLock()
+	r := t.firstRec()
+	t.mu.RUnlock()
+	return r.n
+}
+
+func (t *T) NegDerivedMethodCallAfterUnlock() {
+	t.mu.Lock()
+	r := t.recs["k"]
+	t.mu.Unlock()
+	r.Bump()
+}
+
+func (t *T) NegAliasLookedIntoAfterUnlock() int {
+	t.mu.RLock()
+	in := t.inner
+	t.mu.RUnlock()
+	return in.n
+}
+
+// the value is only handed on, not looked into
+func (t *T) PosDerivedValueOnlyReturned() (int, int) {
+	t.mu.RLock()
+	v := t.m["k"]
+	n := len(t.list)
+	t.mu.RUnlock()
+	if v > n {
+		return v, n
+	}
+	return n, v
+}
+
 // ---- embedded struct: promoted fields and methods ---------------------------------------------------------
 
 type Base struct {
